@@ -1872,3 +1872,58 @@ func ruleWriteTruncates(c *Ctx, r *Report) {
 		r.undecided(rule, fname(open)+"/open-flag", c.Pos(open.Pos()), desc, "no file-opening call found in open/4")
 	}
 }
+
+// ---------------------------------------------------------------------------
+// R-UNREAD-RESETS-EOS (C19; added after seed C19i): "end_of_stream is never at/past while input remains". A
+// successful un-read puts input back: whatever the end-of-stream state was - `at` (the read that is being undone
+// had found the end behind the last byte) or `past` - it is `not` afterwards. In Stream.UnreadByte and
+// Stream.UnreadRune the store that resets the state does not depend on the state: its block carries no fact that
+// compares the endOfStream field.
+func ruleUnreadResetsEOS(c *Ctx, r *Report) {
+	const rule = "R-UNREAD-RESETS-EOS"
+	desc := "a successful un-read resets end_of_stream whatever it was"
+	for _, mn := range []string{"UnreadByte", "UnreadRune"} {
+		fn := c.method("Stream", mn)
+		key := "(*engine.Stream)." + mn + "/reset"
+		if fn == nil {
+			r.undecided(rule, key, "-", desc, "not found")
+			continue
+		}
+		unconditional, any := false, false
+		var where ssa.Instruction
+		eachInstr(fn, func(in ssa.Instruction) {
+			st, ok := in.(*ssa.Store)
+			if !ok {
+				return
+			}
+			fa, ok := st.Addr.(*ssa.FieldAddr)
+			if !ok || fieldName(fa) != "endOfStream" || !isEngNamed(deref(fa.X.Type()), "Stream") {
+				return
+			}
+			any = true
+			where = in
+			dep := false
+			for f := range c.factsAt(in.Block()) {
+				dataSlice(f.cond, func(v ssa.Value) bool {
+					if ld, ok := v.(*ssa.UnOp); ok && ld.Op == token.MUL {
+						if fa2, ok := ld.X.(*ssa.FieldAddr); ok && fieldName(fa2) == "endOfStream" {
+							dep = true
+						}
+					}
+					return !dep
+				})
+			}
+			if !dep {
+				unconditional = true
+			}
+		})
+		switch {
+		case !any:
+			r.bad(rule, key, c.Pos(fn.Pos()), desc, "the un-read never touches endOfStream: after a peek at the last byte the stream stays `at` although that byte is still to be read")
+		case unconditional:
+			r.ok(rule, key, c.at(where), desc, "the reset does not depend on the previous state", true)
+		default:
+			r.bad(rule, key, c.at(where), desc, "the reset happens only for some previous states: after a peek at the last byte of a source that reports its end with that byte the stream stays `at` while a byte remains")
+		}
+	}
+}
